@@ -42,7 +42,7 @@ Definition commit_storage_in (keys : list Z) (W : world) (a : N) (o : obj) : wor
         if skip then (W, o)
         else (mkworld (bank W) (supply W) (wexists W) (deleg W) (unbond W) (wdaddr W) (pending W) (broken W) (grants W)
                       (<[(a, k) := v]> (store W)),
-              mkobj (obal o) (dstor o) (ostor o) (<[k := v]> (tstor o)))
+              mkobj (obal o) (dstor o) (ostor o) (<[k := v]> (tstor o)) (osui o))
       end) keys (W, o).
 Definition commit_storage_sorted (iter : list Z) := commit_storage_in (sorted_keys iter).
 
@@ -50,7 +50,7 @@ Definition commit_storage_sorted (iter : list Z) := commit_storage_in (sorted_ke
     precompile address) are dirty, both with a higher cached balance *)
 Definition w_refute : world := mkworld ∅ 0 ∅ ∅ ∅ ∅ ∅ ∅ ∅ ∅.
 Definition d_refute : sdb :=
-  mksdb (<[1%N := mkobj 10 ∅ ∅ ∅]> (<[5%N := mkobj 7 ∅ ∅ ∅]> ∅)) [] (<[1%N := 1%nat]> (<[5%N := 1%nat]> ∅)) 0.
+  mksdb (<[1%N := mkobj 10 ∅ ∅ ∅ false]> (<[5%N := mkobj 7 ∅ ∅ ∅ false]> ∅)) [] (<[1%N := 1%nat]> (<[5%N := 1%nat]> ∅)) 0.
 
 (** * 2. registries *)
 (** a registry built by inserting the entries one by one, in the order the source map yields them *)
